@@ -101,14 +101,19 @@ Definition wf_rd (d : rd) : Prop :=
   | RD4 a b => a < 4294967296 /\ b < 65536
   end.
 
+(* a prefix of m bits travels in ceil(m / 8) octets: the remaining octets of the address
+   (of `width` octets) are zero in every decoded value *)
+Definition wf_prefix (width a m : N) : Prop :=
+  a < 256 ^ width /\ m <= 8 * width /\ a mod (256 ^ (width - (m + 7) / 8)) = 0.
+
 Definition wf_nlri (n : nlri) : Prop :=
   match n with
-  | NV4 a m => a < 2 ^ 32 /\ m <= 32
-  | NV6 a m => a < 2 ^ 128 /\ m <= 128
-  | NLab4 ls a m => a < 2 ^ 32 /\ m <= 32 /\ wf_labels ls m
-  | NLab6 ls a m => a < 2 ^ 128 /\ m <= 128 /\ wf_labels ls m
-  | NVpn4 ls d a m => a < 2 ^ 32 /\ m <= 32 /\ wf_rd d /\ wf_labels ls (64 + m)
-  | NVpn6 ls d a m => a < 2 ^ 128 /\ m <= 128 /\ wf_rd d /\ wf_labels ls (64 + m)
+  | NV4 a m => wf_prefix 4 a m
+  | NV6 a m => wf_prefix 16 a m
+  | NLab4 ls a m => wf_prefix 4 a m /\ wf_labels ls m
+  | NLab6 ls a m => wf_prefix 16 a m /\ wf_labels ls m
+  | NVpn4 ls d a m => wf_prefix 4 a m /\ wf_rd d /\ wf_labels ls (64 + m)
+  | NVpn6 ls d a m => wf_prefix 16 a m /\ wf_rd d /\ wf_labels ls (64 + m)
   end.
 
 (* protobuf ranges of the API NLRI messages *)
@@ -154,4 +159,167 @@ Definition api_evpn_in_range (x : api_evpn) : Prop :=
       api_rd_in_range d /\ api_esi_in_range esi /\ u32_ok etag
   | AEvImet d etag _ => api_rd_in_range d /\ u32_ok etag
   | AEvEs d esi _ => api_rd_in_range d /\ api_esi_in_range esi
+  end.
+
+(* Flowspec NLRI (RFC 8955 s4, RFC 8956): what packet/src/flowspec.rs decodes.  A prefix
+   component is a prefix of the family; an operator list is non-empty, its operators carry
+   no length bits (they are recomputed from the value), the end-of-list bit is on the last
+   operator and only there, values fit eight octets; the components fill at most the 4095
+   octets the 12-bit length field can express. *)
+Definition wf_op_bits (last : bool) (b : N) : Prop :=
+  b < 256 /\ (b / 16) mod 4 = 0 /\ b / 128 = (if last then 1 else 0).
+
+Fixpoint wf_ops (ops : list (N * N)) : Prop :=
+  match ops with
+  | [] => False
+  | [(b, v)] => wf_op_bits true b /\ v < 2 ^ 64
+  | (b, v) :: r => wf_op_bits false b /\ v < 2 ^ 64 /\ wf_ops r
+  end.
+
+Definition wf_fs_comp (v6 : bool) (c : fs_comp) : Prop :=
+  match c with
+  | FsPfx t a m off =>
+      (t = 1 \/ t = 2) /\ wf_prefix (if v6 then 16 else 4) a m /\ (if v6 then off < 256 else off = 0)
+  | FsOps t ops => 3 <= t <= (if v6 then 13 else 12) /\ wf_ops ops
+  end.
+
+Definition wf_fs (n : fs_nlri) : Prop :=
+  match n with
+  | FsN v6 d comps =>
+      Forall (wf_fs_comp v6) comps
+      /\ match d with Some d' => wf_rd d' | None => True end
+      /\ fs_body_len n <= 4095
+  end.
+
+Definition api_fs_rule_in_range (r : api_fs_rule) : Prop :=
+  match r with FRComp _ items => Forall (fun o => snd o < 2 ^ 64) items | _ => True end.
+Definition api_fs_in_range (x : api_fs) : Prop :=
+  match x with
+  | AFs rules => Forall api_fs_rule_in_range rules
+  | AFsVpn d rules => api_rd_in_range d /\ Forall api_fs_rule_in_range rules
+  end.
+
+(* SR Policy NLRI (draft-ietf-idr-sr-policy-safi s2.1) and Route Target Constraint NLRI (RFC 4684 s4) *)
+Definition wf_srp (n : srp) : Prop :=
+  match n with SrP v6 d c e => u32_ok d /\ u32_ok c /\ e < 256 ^ (if v6 then 16 else 4) end.
+
+Definition wf_rtc (n : rtc) : Prop :=
+  match n with
+  | RtcWild => True
+  | RtcAs a => u32_ok a
+  | RtcExact a rt => u32_ok a /\ length rt = 8%nat /\ bytes_ok rt
+  end.
+
+(* the class of the open finding C17-rtc: what api.RouteTargetMembershipNLRI cannot express *)
+Definition Known_C17_rtc (n : rtc) : Prop :=
+  match n with
+  | RtcWild => False
+  | RtcAs a => a = 0
+  | RtcExact _ rt => match rt with t :: s :: _ => 2 < t \/ s <> 2 | _ => True end
+  end.
+
+(* ------------------------------------------------------------------ *)
+(* Typed PREFIX_SID / TUNNEL_ENCAP messages: what the stored TLV tree must satisfy.
+   wf_*: every field within its wire width (what the decoders of packet/src/prefix_sid.rs and
+   packet/src/tunnel_encap.rs can produce); *_fits: no length field of the encoding has wrapped. *)
+Definition wf_psst (s : psst) : Prop :=
+  match s with PsSt a b c d e f => a < 256 /\ b < 256 /\ c < 256 /\ d < 256 /\ e < 256 /\ f < 256 end.
+Definition wf_ps_info (i : ps_info) : Prop :=
+  match i with PsInfo sid beh ss => length sid = 16%nat /\ bytes_ok sid /\ beh < 65536 /\ Forall wf_psst ss end.
+Definition wf_ps_tlv (t : ps_tlv) : Prop := match t with PsSvc _ infos => Forall wf_ps_info infos end.
+Definition wf_psid (p : psid) : Prop := Forall wf_ps_tlv p.
+
+Definition ps_fits (p : psid) : Prop :=
+  Forall (fun t => N.of_nat (length (ps_tlv_value t)) < 65536 /\
+                   match t with PsSvc _ infos => Forall (fun i => N.of_nat (length (ps_info_value i)) < 65536) infos end) p.
+
+Definition api_ps_infos (t : api_ps_tlv) : list api_ps_info :=
+  match t with APsMissing => [] | APsSvc _ subs => flat_map snd subs end.
+Definition api_psid_in_range (x : list api_ps_tlv) : Prop :=
+  Forall (fun t => Forall (fun i => match i with APsInfo sid _ _ => bytes_ok sid | APsInfoMissing => True end) (api_ps_infos t)) x.
+
+Definition wf_ebs (e : ebs) : Prop :=
+  match e with Ebs beh bl nl fl al => beh < 65536 /\ bl < 256 /\ nl < 256 /\ fl < 256 /\ al < 256 end.
+Definition wf_seg (g : te_seg) : Prop :=
+  match g with
+  | SegA f l => f < 256 /\ l < 1048576
+  | SegB f sid e => f < 256 /\ length sid = 16%nat /\ bytes_ok sid /\ match e with Some e' => wf_ebs e' | None => True end
+  end.
+Definition wf_opt {A} (P : A -> Prop) (o : option A) : Prop := match o with Some x => P x | None => True end.
+Definition wf_cp (cp : te_cp) : Prop :=
+  wf_opt (fun x => fst x < 256 /\ snd x < 4294967296) (cp_pref cp) /\
+  wf_opt (fun x => match x with
+                   | BsMpls f l => f < 256 /\ l < 1048576
+                   | BsSrv6 f sid => f < 256 /\ length sid = 16%nat /\ bytes_ok sid
+                   end) (cp_bsid cp) /\
+  wf_opt (fun x => match x with (f, sid, e) => f < 256 /\ length sid = 16%nat /\ bytes_ok sid /\ wf_ebs e end) (cp_bsid6 cp) /\
+  wf_opt (fun x => fst x < 256 /\ snd x < 256) (cp_enlp cp) /\
+  wf_opt (fun p => p < 256) (cp_prio cp) /\
+  Forall (fun sl => wf_opt (fun w => fst w < 256 /\ snd w < 4294967296) (fst sl) /\ Forall wf_seg (snd sl)) (cp_segs cp) /\
+  wf_opt bytes_ok (cp_name cp) /\
+  wf_opt (fun n => bytes_ok n /\ utf8_valid n = true) (cp_pname cp).
+Definition wf_te_tlv (t : te_tlv) : Prop :=
+  match t with TeSr cp => wf_cp cp | TeRaw ty v => ty < 65536 /\ ty <> SR_POLICY /\ bytes_ok v end.
+Definition wf_te (l : list te_tlv) : Prop := Forall wf_te_tlv l.
+
+(* the two-octet lengths (tunnel TLV, segment list, names) and the one-octet lengths of the segments *)
+Definition te_fits (l : list te_tlv) : Prop :=
+  Forall (fun t => N.of_nat (length (te_tlv_value t)) < 65536 /\
+                   match t with
+                   | TeSr cp =>
+                       wf_opt (fun n => N.of_nat (S (length n)) < 65536) (cp_name cp) /\
+                       wf_opt (fun n => N.of_nat (S (length n)) < 65536) (cp_pname cp) /\
+                       Forall (fun sl => N.of_nat (length (seglist_value sl)) < 65536 /\
+                                         Forall (fun g => N.of_nat (length (seg_value g)) < 256) (snd sl)) (cp_segs cp)
+                   | TeRaw _ _ => True
+                   end) l.
+
+Definition api_seg_in_range (g : api_seg) : Prop :=
+  match g with ASegB _ sid _ => bytes_ok sid | _ => True end.
+Definition api_te_sub_in_range (s : api_te_sub) : Prop :=
+  match s with
+  | ATsPref _ p => p < 4294967296
+  | ATsBsidMpls _ _ sid => bytes_ok sid
+  | ATsBsid6 _ _ _ sid _ => bytes_ok sid
+  | ATsName n => bytes_ok n
+  | ATsSegList w gs => wf_opt (fun w' => snd w' < 4294967296) w /\ Forall api_seg_in_range gs
+  | ATsUnknown _ v => bytes_ok v
+  | _ => True
+  end.
+Definition api_te_in_range (x : list (N * list api_te_sub)) : Prop :=
+  Forall (fun t => Forall api_te_sub_in_range (snd t)) x.
+
+(* what the typed listing can carry (outside it attr_to_api lists the raw value): only the flag bits the
+   message has fields for, a type B behaviour structure only under the flag the decoder keys it on, and no
+   raw value of another tunnel type *)
+Definition seg_listable (g : te_seg) : Prop :=
+  match g with
+  | SegA f _ => f mod 16 = 0
+  | SegB f _ e => f mod 16 = 0 /\ (e <> None -> bit_set f 64 = true)
+  end.
+Definition cp_listable (cp : te_cp) : Prop :=
+  wf_opt (fun x => match x with BsMpls f _ => f mod 64 = 0 | BsSrv6 f _ => f mod 64 = 0 end) (cp_bsid cp) /\
+  wf_opt (fun x => match x with (f, _, _) => f mod 32 = 0 end) (cp_bsid6 cp) /\
+  Forall (fun sl => Forall seg_listable (snd sl)) (cp_segs cp).
+Definition te_listable (l : list te_tlv) : Prop :=
+  Forall (fun t => match t with TeSr cp => cp_listable cp | TeRaw _ v => v = [] end) l.
+
+(* ------------------------------------------------------------------ *)
+(* BGP-MUP NLRI: what the decoder of packet/src/mup.rs can produce *)
+Definition ip_w (i : ipaddr) : N := if ip_is_v4 i then 4 else 16.
+Definition wf_mup (n : mup) : Prop :=
+  match n with
+  | MupIsd d a len => wf_rd d /\ wf_prefix (ip_w a) (ip_value a) len
+  | MupDsd d a => wf_rd d /\ wf_ip a
+  | MupT1 d a len teid qfi ep src =>
+      wf_rd d /\ wf_prefix (ip_w a) (ip_value a) len /\ teid < 4294967296 /\ qfi < 256 /\ wf_ip ep /\ wf_opt wf_ip src
+  | MupT2 d ealen ep teid =>
+      wf_rd d /\ wf_ip ep /\ ip_width ep <= ealen /\ ealen <= ip_width ep + 32 /\ teid < 4294967296 /\
+      ((ealen - ip_width ep + 7) / 8 < 4 -> (teid * 256 ^ ((ealen - ip_width ep + 7) / 8)) mod 4294967296 = 0)
+  end.
+Definition api_mup_in_range (x : api_mup) : Prop :=
+  match x with
+  | AMupIsd d _ | AMupDsd d _ => api_rd_in_range d
+  | AMupT1 d _ teid _ _ _ _ _ => api_rd_in_range d /\ teid < 4294967296
+  | AMupT2 d _ _ teid => api_rd_in_range d /\ teid < 4294967296
   end.
